@@ -322,12 +322,7 @@ Section Dec.
   (* one fragment of a constructed string: decodeFun(substrate, protoComponent, substrateFun=collector) *)
   Definition fragment (proto: ty) (allow_eoo: bool) : proc dval := rec (STy proto) [] None allow_eoo true.
 
-  Definition dec_octets (proto: ty) (fl: dec_flags) (sp: option ty) (ts: tagset) (len: N) (sfun: bool) : proc dval :=
-    (* the only substrateFun modelled is the fragment collector, which this decoder ignores *)
-    if tag0_simple ts then let! b := read_len len in create sp proto ts (VOcts b) else
-    if negb (df_constructed fl) then Raise EMalformed else
-    let! start := tell in
-    (fix loop (n: nat) (acc: bytes) : proc dval :=
+  Fixpoint octets_loop (proto: ty) (sp: option ty) (ts: tagset) (len: N) (start: nat) (n: nat) (acc: bytes) : proc dval :=
        match n with
        | O => Raise EOutOfFuel
        | S n' =>
@@ -335,26 +330,35 @@ Section Dec.
            if N.ltb (N.of_nat (p - start)) len then
              let! f := fragment proto false in
              match f with
-             | DRaw b => loop n' (acc ++ b)
-             | DV _ (VOcts b) => loop n' (acc ++ b)       (* a value object: bytes + OctetString *)
+             | DRaw b => octets_loop proto sp ts len start n' (acc ++ b)
+             | DV _ (VOcts b) => octets_loop proto sp ts len start n' (acc ++ b)       (* a value object: bytes + OctetString *)
              | _ => Raise (ECrash TypeError)
              end
            else create sp proto ts (VOcts acc)
-       end) loopfuel [].
+       end.
 
-  Definition dec_octets_indef (proto: ty) (sp: option ty) (ts: tagset) : proc dval :=
-    (fix loop (n: nat) (acc: bytes) : proc dval :=
+  Definition dec_octets (proto: ty) (fl: dec_flags) (sp: option ty) (ts: tagset) (len: N) (sfun: bool) : proc dval :=
+    (* the only substrateFun modelled is the fragment collector, which this decoder ignores *)
+    if tag0_simple ts then let! b := read_len len in create sp proto ts (VOcts b) else
+    if negb (df_constructed fl) then Raise EMalformed else
+    let! start := tell in
+    octets_loop proto sp ts len start loopfuel [].
+
+  Fixpoint octets_indef_loop (proto: ty) (sp: option ty) (ts: tagset) (n: nat) (acc: bytes) : proc dval :=
        match n with
        | O => Raise EOutOfFuel
        | S n' =>
            let! f := fragment proto true in
            match f with
            | DEoo => create sp proto ts (VOcts acc)
-           | DRaw b => loop n' (acc ++ b)
-           | DV _ (VOcts b) => loop n' (acc ++ b)
+           | DRaw b => octets_indef_loop proto sp ts n' (acc ++ b)
+           | DV _ (VOcts b) => octets_indef_loop proto sp ts n' (acc ++ b)
            | _ => Raise (ECrash TypeError)
            end
-       end) loopfuel [].
+       end.
+
+  Definition dec_octets_indef (proto: ty) (sp: option ty) (ts: tagset) : proc dval :=
+    octets_indef_loop proto sp ts loopfuel [].
 
   Definition add_bits_fragment (acc: list bool) (f: dval) : proc (list bool) :=
     match f with
@@ -364,6 +368,16 @@ Section Dec.
         let! bs := lift (bits_of_octets r tb) in Ret (acc ++ bs)
     | _ => Raise (ECrash TypeError)
     end.
+
+  Fixpoint bits_loop (sp: option ty) (ts: tagset) (len: N) (start: nat) (n: nat) (acc: list bool) : proc dval :=
+       match n with
+       | O => Raise EOutOfFuel
+       | S n' =>
+           let! p := tell in
+           if N.ltb (N.of_nat (p - start)) len then
+             let! f := fragment TBits false in let! acc' := add_bits_fragment acc f in bits_loop sp ts len start n' acc'
+           else create sp TBits ts (VBits acc)
+       end.
 
   Definition dec_bits (fl: dec_flags) (sp: option ty) (ts: tagset) (len: N) (sfun: bool) : proc dval :=
     if sfun then collector (Some len) else
@@ -375,28 +389,22 @@ Section Dec.
     else
     if negb (df_constructed fl) then Raise EMalformed else
     let! start := tell in
-    (fix loop (n: nat) (acc: list bool) : proc dval :=
-       match n with
-       | O => Raise EOutOfFuel
-       | S n' =>
-           let! p := tell in
-           if N.ltb (N.of_nat (p - start)) len then
-             let! f := fragment TBits false in let! acc' := add_bits_fragment acc f in loop n' acc'
-           else create sp TBits ts (VBits acc)
-       end) loopfuel [].
+    bits_loop sp ts len start loopfuel [].
 
-  Definition dec_bits_indef (sp: option ty) (ts: tagset) (sfun: bool) : proc dval :=
-    if sfun then collector None else
-    (fix loop (n: nat) (acc: list bool) : proc dval :=
+  Fixpoint bits_indef_loop (sp: option ty) (ts: tagset) (n: nat) (acc: list bool) : proc dval :=
        match n with
        | O => Raise EOutOfFuel
        | S n' =>
            let! f := fragment TBits true in
            match f with
            | DEoo => create sp TBits ts (VBits acc)
-           | _ => let! acc' := add_bits_fragment acc f in loop n' acc'
+           | _ => let! acc' := add_bits_fragment acc f in bits_indef_loop sp ts n' acc'
            end
-       end) loopfuel [].
+       end.
+
+  Definition dec_bits_indef (sp: option ty) (ts: tagset) (sfun: bool) : proc dval :=
+    if sfun then collector None else
+    bits_indef_loop sp ts loopfuel [].
 
   (* --- ANY --- *)
   Definition dec_any (sp: option ty) (ts: tagset) (len: N) (sfun: bool) : proc dval :=
@@ -405,10 +413,7 @@ Section Dec.
     let! b := read_len len' in
     if sfun then Ret (DRaw b) else create sp TAny ts (VAny b).
 
-  Definition dec_any_indef (sp: option ty) (ts: tagset) (sfun: bool) : proc dval :=
-    let tagged := match sp with None => false | Some T => tagset_eqb ts (tagset_of' T) end in
-    let! header := (if tagged then Ret [] else (let! m := getmark in let! p := tell in SeekBack (p - m) (readN (p - m)))) in
-    (fix loop (n: nat) (acc: bytes) : proc dval :=
+  Fixpoint any_indef_loop (sp: option ty) (ts: tagset) (sfun tagged: bool) (n: nat) (acc: bytes) : proc dval :=
        match n with
        | O => Raise EOutOfFuel
        | S n' =>
@@ -416,11 +421,16 @@ Section Dec.
            match f with
            | DEoo => let whole := acc ++ (if tagged then [] else [0; 0]) in   (* an untagged ANY holds the whole TLV *)
                      if sfun then Ret (DRaw whole) else create sp TAny ts (VAny whole)
-           | DRaw b => loop n' (acc ++ b)
-           | DV _ (VAny b) => loop n' (acc ++ b)
+           | DRaw b => any_indef_loop sp ts sfun tagged n' (acc ++ b)
+           | DV _ (VAny b) => any_indef_loop sp ts sfun tagged n' (acc ++ b)
            | _ => Raise (ECrash TypeError)
            end
-       end) loopfuel header.
+       end.
+
+  Definition dec_any_indef (sp: option ty) (ts: tagset) (sfun: bool) : proc dval :=
+    let tagged := match sp with None => false | Some T => tagset_eqb ts (tagset_of' T) end in
+    let! header := (if tagged then Ret [] else (let! m := getmark in let! p := tell in SeekBack (p - m) (readN (p - m)))) in
+    any_indef_loop sp ts sfun tagged loopfuel header.
 
   (* --- constructed types --- *)
 
@@ -466,11 +476,9 @@ Section Dec.
     forallb (fun pv => match fst (fst pv), snd pv with Req, None => false | _, _ => true end) (combine fs vs).
 
   (* SEQUENCE / SET guided by a type; [len] = Some n definite, None indefinite *)
-  Definition dec_record (T: ty) (fs: list (presence * ty)) (is_set: bool) (len: option N) : proc dval :=
+  Fixpoint record_loop (T: ty) (fs: list (presence * ty)) (is_set: bool) (len: option N) (start: nat) (n: nat) (idx: nat) (vs: list (option val)) (extra: nat) : proc dval :=
     let deterministic := negb is_set && forallb (fun f => is_req (fst f)) fs in
     let no_fields := match fs with [] => true | _ => false end in
-    let! start := tell in
-    (fix loop (n: nat) (idx: nat) (vs: list (option val)) (extra: nat) : proc dval :=
        match n with
        | O => Raise EOutOfFuel
        | S n' =>
@@ -504,7 +512,7 @@ Section Dec.
                      else
                        let! i := lift (seq_position fs is_set deterministic idx Tc vc) in
                        if Nat.leb (length fs) i then Raise (ECrash IndexError)
-                       else loop n' (S i) (set_nth i (Some vc) vs) extra
+                       else record_loop T fs is_set len start n' (S i) (set_nth i (Some vc) vs) extra
                  | DNoValue | DNone => Raise (ECrash AttributeError)
                  | DRaw b =>
                      (* a bare bytes object: no effectiveTagSet; where the position is known,
@@ -512,19 +520,23 @@ Section Dec.
                      if no_fields then Raise EUnmodelled
                      else if deterministic || (negb is_set && match nth_error fs idx with Some (p, _) => is_req p | None => false end) then
                        match nth_error fs idx with
-                       | Some (_, ft) => if is_any ft then loop n' (S idx) (set_nth idx (Some (VAny b)) vs) extra
+                       | Some (_, ft) => if is_any ft then record_loop T fs is_set len start n' (S idx) (set_nth idx (Some (VAny b)) vs) extra
                                          else Raise EUnmodelled
                        | None => Raise (ECrash IndexError)
                        end
                      else Raise (ECrash AttributeError)
                  end
              end
-       end) loopfuel 0%nat (map (fun _ => None) fs) 0%nat.
+       end.
+
+  Definition dec_record (T: ty) (fs: list (presence * ty)) (is_set: bool) (len: option N) : proc dval :=
+    let deterministic := negb is_set && forallb (fun f => is_req (fst f)) fs in
+    let no_fields := match fs with [] => true | _ => false end in
+    let! start := tell in
+    record_loop T fs is_set len start loopfuel 0%nat (map (fun _ => None) fs) 0%nat.
 
   (* SEQUENCE OF / SET OF guided by a type *)
-  Definition dec_listof (T: ty) (t: ty) (len: option N) : proc dval :=
-    let! start := tell in
-    (fix loop (n: nat) (acc: list val) : proc dval :=
+  Fixpoint listof_loop (T: ty) (t: ty) (len: option N) (start: nat) (n: nat) (acc: list val) : proc dval :=
        match n with
        | O => Raise EOutOfFuel
        | S n' =>
@@ -535,16 +547,18 @@ Section Dec.
              let! d := rec (STy t) [] None (match len with None => true | Some _ => false end) false in
              match d with
              | DEoo => Ret (DV T (VList acc))
-             | DV _ vc => loop n' (acc ++ [vc])
-             | DRaw b => if is_any t then loop n' (acc ++ [VAny b]) else Raise EUnmodelled
+             | DV _ vc => listof_loop T t len start n' (acc ++ [vc])
+             | DRaw b => if is_any t then listof_loop T t len start n' (acc ++ [VAny b]) else Raise EUnmodelled
              | _ => Raise (ECrash AttributeError)
              end
-       end) loopfuel [].
+       end.
+
+  Definition dec_listof (T: ty) (t: ty) (len: option N) : proc dval :=
+    let! start := tell in
+    listof_loop T t len start loopfuel [].
 
   (* _decodeComponentsSchemaless: guess SEQUENCE vs SEQUENCE OF from the members' tag sets *)
-  Definition dec_schemaless (is_set: bool) (ts: tagset) (len: option N) : proc dval :=
-    let! start := tell in
-    (fix loop (n: nat) (acc: list (ty * val)) : proc dval :=
+  Fixpoint schemaless_loop (is_set: bool) (ts: tagset) (len: option N) (start: nat) (n: nat) (acc: list (ty * val)) : proc dval :=
        let finish :=
          match acc with
          | [] => Ret (DV (schemaless_ty (if is_set then TSetOf TNull else TSeqOf TNull) ts) (VList []))
@@ -566,56 +580,68 @@ Section Dec.
              let! d := rec SNone [] None (match len with None => true | Some _ => false end) false in
              match d with
              | DEoo => finish
-             | DV Tc vc => loop n' (acc ++ [(Tc, vc)])
+             | DV Tc vc => schemaless_loop is_set ts len start n' (acc ++ [(Tc, vc)])
              | _ => Raise (ECrash AttributeError)
              end
-       end) loopfuel [].
+       end.
+
+  Definition dec_schemaless (is_set: bool) (ts: tagset) (len: option N) : proc dval :=
+    let! start := tell in
+    schemaless_loop is_set ts len start loopfuel [].
 
   (* CHOICE guided by a type *)
-  Definition dec_choice (T: ty) (alts: list ty) (ts: tagset) (len: option N) : proc dval :=
+  Definition choice_place (T: ty) (alts: list ty) (d: dval) : proc dval :=
+    match d with
+    | DV Tc vc =>
+        let! i := lift (position_by_type alts (effective_tagset (S loopfuel) Tc vc)) in
+        Ret (DV T (VChoice i vc))
+    | _ => Raise (ECrash AttributeError)
+    end.
+
+  Fixpoint choice_loop (T: ty) (alts: list ty) (ts: tagset) (tagged: bool) (n: nat) (cur: option dval) : proc dval :=
     let m := fields_tagmap true alts in
-    let tagged := tagset_eqb (tagset_of' T) ts in
-    let place (d: dval) : proc dval :=
-      match d with
-      | DV Tc vc =>
-          let! i := lift (position_by_type alts (effective_tagset (S loopfuel) Tc vc)) in
-          Ret (DV T (VChoice i vc))
-      | _ => Raise (ECrash AttributeError)
-      end in
-    match len with
-    | Some l =>
-        let! d := (if tagged then rec (SMap m) [] None false false else rec (SMap m) ts (Some (Some l)) false false) in
-        place d
-    | None =>
-        (* indefinite: the loop re-enters with allowEoo; untagged: one component, then stop *)
-        (fix loop (n: nat) (cur: option dval) : proc dval :=
+    let place := choice_place T alts in
            match n with
            | O => Raise EOutOfFuel
            | S n' =>
                let! d := (if tagged then rec (SMap m) [] None true false else rec (SMap m) ts (Some None) false false) in
                match d with
                | DEoo => match cur with Some x => Ret x | None => Ret (DV T (VChoice (length alts) VNull)) end
-               | _ => let! x := place d in if tagged then loop n' (Some x) else Ret x
+               | _ => let! x := place d in if tagged then choice_loop T alts ts tagged n' (Some x) else Ret x
                end
-           end) loopfuel None
+           end.
+
+  Definition dec_choice (T: ty) (alts: list ty) (ts: tagset) (len: option N) : proc dval :=
+    let m := fields_tagmap true alts in
+    let tagged := tagset_eqb (tagset_of' T) ts in
+    let place := choice_place T alts in
+    match len with
+    | Some l =>
+        let! d := (if tagged then rec (SMap m) [] None false false else rec (SMap m) ts (Some (Some l)) false false) in
+        place d
+    | None =>
+        (* indefinite: the loop re-enters with allowEoo; untagged: one component, then stop *)
+        choice_loop T alts ts tagged loopfuel None
     end.
 
   (* RawPayloadDecoder: an explicit tag, or whatever substrateFun wants *)
-  Definition dec_raw (sp: spec) (ts: tagset) (len: option N) (sfun: bool) : proc dval :=
-    if sfun then collector len else
-    match len with
-    | Some _ => rec sp ts None false false
-    | None =>
-        (fix loop (n: nat) (last: dval) : proc dval :=
+  Fixpoint raw_loop (sp: spec) (ts: tagset) (n: nat) (last: dval) : proc dval :=
            match n with
            | O => Raise EOutOfFuel
            | S n' =>
                let! d := rec sp ts None true false in
                match d with
                | DEoo => match last with DNoValue => Raise EMalformed | _ => Ret last end
-               | _ => loop n' d
+               | _ => raw_loop sp ts n' d
                end
-           end) loopfuel DNoValue
+           end.
+
+  Definition dec_raw (sp: spec) (ts: tagset) (len: option N) (sfun: bool) : proc dval :=
+    if sfun then collector len else
+    match len with
+    | Some _ => rec sp ts None false false
+    | None =>
+        raw_loop sp ts loopfuel DNoValue
     end.
 
   (* concreteDecoder.valueDecoder / indefLenValueDecoder *)
@@ -663,19 +689,21 @@ Section Dec.
     end.
 
   (* identifier octets, one read per octet *)
+  Fixpoint long_tag (cl: tclass) (f: bool) (k: nat) (acc: N) : proc tag :=
+         match k with
+         | O => Raise EOutOfFuel
+         | S k' => let! b := read1 in
+                   let acc' := N.lor (N.shiftl acc 7) (N.land b 127) in
+                   if N.eqb (N.land b 128) 0 then Ret (mkTag cl f acc') else long_tag cl f k' acc'
+         end.
+
   Definition read_tag : proc tag :=
     let! o := read1 in
     let cl := cls_of_bits o in
     let f := negb (N.eqb (N.land o 32) 0) in
     let n := N.land o 31 in
     if N.eqb n 31 then
-      (fix more (k: nat) (acc: N) : proc tag :=
-         match k with
-         | O => Raise EOutOfFuel
-         | S k' => let! b := read1 in
-                   let acc' := N.lor (N.shiftl acc 7) (N.land b 127) in
-                   if N.eqb (N.land b 128) 0 then Ret (mkTag cl f acc') else more k' acc'
-         end) loopfuel 0
+      long_tag cl f loopfuel 0
     else Ret (mkTag cl f n).
 
   Definition read_length : proc (option N) :=
